@@ -73,7 +73,7 @@ CHECKS = {
     },
     "C14": {
         "level": "exploration",
-        "rule": "world/history generator of C03 restricted to Parallel sets, mostly constructed populations; oracle per error-free reconcile: every "
+        "rule": "world/history generator of C03 restricted to Parallel sets, mostly constructed populations, plus the op 'a claim is deleted and held by its finalizer'; oracle per reconcile in which no API call failed (judged by the calls, not by what the reconcile returns): every "
                 "vacant desired ordinal of the snapshot is created and every live condemned pod deleted in that reconcile, <= 1 update delete, "
                 "and the rolling-update discipline of C07 (an update delete needs every higher desired pod up to date and healthy). "
                 "Non-trivial = k+m >= 2 with at least one unhealthy/terminating bystander pod; distinct = world+history",
@@ -152,7 +152,7 @@ CHECKS = {
         "level": "exploration",
         "rule": "case = C03-style world (constructed pods incl. adoptable orphans, orphan ControllerRevisions, faults, stale caches; no mid-reconcile "
                 "interference) in whose history a flag is raised before op i - a deletion timestamp, or paused-reconcile=true lowered again before "
-                "op j. Oracle while the snapshot shows the flag: paused => zero writes on every resource; deleting => no write on pods or claims, no "
+                "op j, or paused-reconcile=true joined by a deletion timestamp from op j on. Oracle while the snapshot shows the flag: paused => zero writes on every resource; deleting => no write on pods or claims, no "
                 "write of any verb that changes the controlling owner of a pod or ControllerRevision; a stale-cached set that already carries the "
                 "deletion timestamp in the API adopts nothing either; the un-pause, delivered as a set update event, must enqueue the set. Pause only: a never-paused twin (clone taken when the flag is raised) runs the "
                 "same environment history; both are closed by the fair schedule, must satisfy the C02 fixed-point oracle and agree on the "
@@ -215,8 +215,8 @@ CHECKS = {
     },
     "C20": {
         "level": "exploration",
-        "rule": "case = a schedule of <= 20 ops over {source sends an event of type Added/Modified/Deleted/Bookmark/Error (payload: one of three "
-                "Advanced StatefulSets, a bookmark-style set, or a *metav1.Status for Error), consumer receives one event, consumer calls Stop "
+        "rule": "case = a schedule of <= 20 ops over {source sends an event of type Added/Modified/Deleted/Bookmark/Error (payload drawn independently of the type: one of three "
+                "Advanced StatefulSets, a fully populated one, a bare-resourceVersion bookmark object, a bookmark carrying the initial-events-end annotation, or a *metav1.Status for Error), consumer receives one event, consumer calls Stop "
                 "(twice: idempotence), source closes}; the harness owns the source watch (buffered channel, counted Stop) and the consumer. Oracle: "
                 "received events = a prefix of the sent ones with the same type and the equivalent built-in object (Status relayed unchanged); no "
                 "panic in the relay (recorded through a PanicHandler with ReallyCrash=false); after Stop the relay goroutine exits without the "
@@ -289,7 +289,7 @@ CHECKS = {
     },
     "C17": {
         "level": "fault_enumeration",
-        "rule": "world = built-in StatefulSet with 1-3 matchLabels keys (optionally plus a matchExpressions requirement), 0-5 ControllerRevisions of the set, "
+        "rule": "world = built-in StatefulSet with 1-3 matchLabels keys (optionally plus a matchExpressions requirement), 0-5 ControllerRevisions of the set (a drawn subset of them unowned, waiting for adoption), "
                 "0-2 unrelated revisions, 0-3 pods, 0-2 claims, Advanced object absent / present with the same spec / present with another spec. The "
                 "uninterrupted Upgrade is run on one copy to learn its N API calls; then for each chosen position (quick: 4 drawn, thorough: all) x "
                 "7 fault kinds (server error, timeout not applied, timeout applied, crash before / after, real conflict = the object is touched just "
